@@ -16,7 +16,7 @@ import (
 // operation fail from that moment on — for a write deadline on a control connection silently, because the dispatcher
 // ignores write errors: the peer is alive, sends heartbeats, and never gets an answer.
 func checkDeadlineCleared(c *engine.Ctx, rule string) {
-	c.Rule(rule, "after SetDeadline / SetReadDeadline / SetWriteDeadline with a real time, every path to the function's exit clears that deadline on the same connection (zero time), closes the connection, re-arms it (a per-iteration deadline) or returns a non-nil error (the caller discards the connection)")
+	c.Rule(rule, "after SetDeadline / SetReadDeadline / SetWriteDeadline with a real time, every path to the function's exit clears that deadline on the same connection (zero time), closes the connection, re-arms it (a per-iteration deadline) or reports failure (a non-nil error or a constant false verdict: the caller discards the connection)")
 	p := c.P
 	n := 0
 	isZeroTime := func(v ssa.Value) bool {
@@ -127,6 +127,12 @@ func checkDeadlineCleared(c *engine.Ctx, rule string) {
 						return ""
 					}
 					r := st.Sink.(*ssa.Return)
+					for _, rv := range r.Results {
+						// a helper that reports failure as `false`: the caller gives the connection up
+						if b, isC := engine.ConstBool(st.Resolve(rv)); isC && !b {
+							return ""
+						}
+					}
 					for _, rv := range r.Results {
 						if types.Identical(rv.Type(), errT) {
 							ev := st.Resolve(rv)
